@@ -6,3 +6,9 @@ import RzmqModel.Props.C20
 #print axioms Rzmq.C20.dropped_lease_returns_buffer
 #print axioms Rzmq.C20.handed_over_lease_keeps_its_buffer
 #print axioms Rzmq.C20.oversize_never_takes_a_buffer
+#print axioms Rzmq.C20.op_table_shape
+#print axioms Rzmq.C20.current_table_is_the_proved_one
+#print axioms Rzmq.C20.dropping_at_close_frees_inflight_buffers
+#print axioms Rzmq.C20.keeping_only_sends_misattributes
+#print axioms Rzmq.C20.slab_first_lookup_misattributes_notifications
+#print axioms Rzmq.C20.vacated_slot_lets_two_sends_share_a_user_data
